@@ -27,6 +27,7 @@ import (
 
 	"github.com/krotik/ecal/parser"
 	"github.com/krotik/ecal/scope"
+	"github.com/krotik/ecal/verifhook"
 )
 
 const c05Sep = " @ "
@@ -87,8 +88,37 @@ func c05Canon(v interface{}, d int) string {
 	return evCanonD(v, d)
 }
 
+// call frames as the real code builds them (hook point func.frame in function.Run, hooks/C05.patch: called after the
+// parameters are bound and the frame is linked): scope name, name of the scope it is linked to, and the names it
+// holds at that moment (sorted). c05FrameHook is false on a tree without the hook: the F section then says so.
+var (
+	c05Frames    []string
+	c05FrameHook bool
+)
+
+func c05FrameHandler(point string, args ...interface{}) {
+	if point != "func.frame" || len(args) < 2 {
+		return
+	}
+	fvs, ok := args[1].(parser.Scope)
+	if !ok || fvs.Parent() == nil {
+		return
+	}
+	decl := fvs.Parent() // the scope the frame is REALLY linked to
+	var names []string
+	for k := range scope.ToObject(fvs) {
+		names = append(names, hx(fmt.Sprint(k)))
+	}
+	sort.Strings(names)
+	c05Frames = append(c05Frames, hx(fvs.Name())+">"+hx(decl.Name())+"["+strings.Join(names, ",")+"]")
+}
+
 func c05Setup() {
 	evSetup()
+	verifhook.SetHandler(c05FrameHandler)
+	c05Frames = nil
+	c05Outcome(scope.NewScope(scope.GlobalScope), "func f() {\n}\nf()")
+	c05FrameHook = len(c05Frames) > 0
 	registerX("mark", func(args []interface{}) (interface{}, error) {
 		parts := make([]string, len(args))
 		for i, a := range args {
@@ -134,11 +164,12 @@ func c05LogFrom(i int) (string, int) {
 	return strings.Join(evLog.entries[i:], "|"), len(evLog.entries)
 }
 
-// Result: <program outcome>;G <global dump after the program>;LOG <trace of the program>;<probe 1 outcome> L <trace of
-// probe 1>;…;G <global dump after the probes>.  The model prints U for a probe section it cannot give (and for every
+// Result: <program outcome>;G <global dump after the program>;LOG <trace of the program>;F <call frames of the
+// program>;<probe 1 outcome> L <trace of probe 1>;…;G <global dump after the probes>.  The model prints U for a probe section it cannot give (and for every
 // section after a probe that left the model); props/C05.py compares section by section and accepts U.
 func c05Run(payload string) string {
 	evLog.reset()
+	c05Frames = nil
 	vs := scope.NewScope(scope.GlobalScope)
 	var outs []string
 	n := 0
@@ -150,7 +181,11 @@ func c05Run(payload string) string {
 		var lg string
 		lg, n = c05LogFrom(n)
 		if i == 0 {
-			outs = append(outs, out, "G "+c05Dump(vs), "LOG "+lg)
+			fr := "F nohook"
+			if c05FrameHook {
+				fr = "F " + strings.Join(c05Frames, "|")
+			}
+			outs = append(outs, out, "G "+c05Dump(vs), "LOG "+lg, fr)
 		} else {
 			outs = append(outs, out+" L "+lg)
 		}
